@@ -68,6 +68,7 @@ def guard_of(F, T):
             'counter starts at 0 and grows by exactly 1 per non-error tick', floor=4)
 def r1(cx, rec):
     F = cx.F
+    timer_not_rearmed(cx, rec)
     T = timeout_fn(F)
     sb, op, path, L, Ldef, err_on_true = guard_of(F, T)
     rec.site(T, sb, 'guard %s(%s, %s=%s) error on %s edge' % (op, path, Ldef, L, err_on_true))
@@ -169,6 +170,24 @@ def keepalive_arm(F):
                 if bb in arm['region'] or bb == arm['target']:
                     return f, arm, sel
     raise AnchorMissing('the timeout handler is not called from a select! arm')
+
+
+def timer_not_rearmed(cx, rec):
+    """the keep-alive interval is created once and only ticks: nothing resets / re-creates it while the loop runs (a reset on
+    every received frame would let a peer that only sends keep-alives, or anything within the period, suppress every tick)"""
+    F = cx.F
+    n = 0
+    for f in F.user_fns():
+        if not f.path.startswith('peer_handler::'):
+            continue
+        for bb in mirq.real_calls(f):
+            cal = f.blocks[bb]['t'].get('callee') or ''
+            if re.search(r'tokio::time::Interval::reset', cal):
+                n += 1
+                rec.violation('timer-rearmed/' + F.owner_fn(f).path, f, bb,
+                              'an interval timer of the connection task is reset (%s): ticks can be postponed indefinitely by incoming '
+                              'traffic, so the silence counter never advances' % cal.split('::')[-1])
+    rec.site('peer_handler', None, 'interval resets in the connection task: %d' % n)
 
 
 @TABLE.rule('2', 'K1', 'timer tick is a select! branch of the peer loop; its arm runs the timeout handler, '
